@@ -61,6 +61,23 @@ fn index_eq(a: &str, b: &str) {
     report("index-eq", r1 != r2, format!("with index {:?} / without {:?}", r1, r2));
 }
 
+/// index-diff <label> <prop> <query> <stmt>...: the statements run against a database with an index on (label, prop) created
+/// first and against one without; the query must answer the same on both.
+fn index_diff(label: &str, prop: &str, query: &str, stmts: &[String]) {
+    let d = tempfile::tempdir().unwrap();
+    let with = Db::open(d.path().join("with")).unwrap();
+    with.create_index(label, prop).unwrap();
+    let without = Db::open(d.path().join("without")).unwrap();
+    for db in [&with, &without] {
+        for s in stmts {
+            w(db, s).unwrap();
+        }
+    }
+    let r1 = q(&with, query);
+    let r2 = q(&without, query);
+    report("index-diff", r1 != r2, format!("with index {:?} / without {:?}", r1, r2));
+}
+
 /// wal-tail <hex>: committed transaction, then these bytes appended to the log, then open.
 fn wal_tail(tail: &str) {
     let d = tempfile::tempdir().unwrap();
@@ -351,6 +368,7 @@ fn main() {
     let arg = |i: usize| a.get(i).cloned().unwrap_or_default();
     let r = std::panic::catch_unwind(|| match arg(1).as_str() {
         "index-eq" => index_eq(&arg(2), &arg(3)),
+        "index-diff" => index_diff(&arg(2), &arg(3), &arg(4), &std::env::args().skip(5).collect::<Vec<_>>()),
         "wal-tail" => wal_tail(&arg(2)),
         "wal-append-after-tail" => wal_append_after_tail(&arg(2)),
         "edge-free-incoming" => edge_free_incoming(arg(2) == "bulk"),
